@@ -124,12 +124,16 @@ impl RedoError {
     { unimplemented!() }
     #[verifier::external_body]
     pub fn from_kind(k: RedoErrorKind) -> (r: RedoError) ensures r.kind() == k, r.chain() == seq![ErrNode::Redo(k)] { unimplemented!() }
-    /// `RedoError::wrap(cause, msg)` for a RedoError cause: a Generic error whose source() is the cause (error.rs, pinned in unit sched)
+    /// `RedoError::wrap(cause, msg)`: a Generic error whose source() is the cause (error.rs, pinned in unit sched); the cause is a
+    /// RedoError or an error of another type (one Foreign link)
     #[verifier::external_body]
-    pub fn wrap<S: Msg>(cause: RedoError, msg: S) -> (r: RedoError)
-        ensures r.kind() == RedoErrorKind::Generic, r.chain() == seq![ErrNode::Redo(RedoErrorKind::Generic)] + cause.chain(),
+    pub fn wrap<E: Cause, S: Msg>(cause: E, msg: S) -> (r: RedoError)
+        ensures r.kind() == RedoErrorKind::Generic, r.chain() == seq![ErrNode::Redo(RedoErrorKind::Generic)] + cause.cause_chain(),
     { unimplemented!() }
 }
+/// what `wrap` accepts as a cause (`E: Error + Send + Sync + 'static` in error.rs)
+pub trait Cause { spec fn cause_chain(&self) -> Seq<ErrNode>; }
+impl Cause for RedoError { open spec fn cause_chain(&self) -> Seq<ErrNode> { self.chain() } }
 impl From<RedoErrorKind> for RedoError {
     #[verifier::external_body]
     fn from(k: RedoErrorKind) -> (r: RedoError) ensures r.kind() == k, r.chain() == seq![ErrNode::Redo(k)] { unimplemented!() }
